@@ -545,12 +545,15 @@ def _small_shapes():
 @check("C09")
 def c09(res, tier, deadline):
     res.rule = ("one generated program per real C++ class lattice {chain, tree, diamond with a "
-                "virtual base, root as second base at a non-zero offset}; inside, for each of four "
+                "virtual base, root as second base at a non-zero offset, tree with an abstract class whose "
+                "constructors / destructors dispatch on the object under construction}; inside, for each of four "
                 "policies {direct, checked, map, indirect} x every subset of the four classes "
                 "carrying definitions (16) x every (static class B, pointee class D <= B) x every "
                 "construction route {from a base reference, exact type, final, final_virtual_ptr, "
                 "converting from lvalue / const / rvalue virtual_ptr<D>, copy, shared from lvalue / "
-                "const / rvalue shared_ptr, converting shared, make_virtual_shared}: the definition "
+                "const / rvalue shared_ptr, converting shared, make_virtual_shared, final on a shared_ptr "
+                "lvalue / const / rvalue, moved, copy- / move- / converting-assigned, const-qualified pointees "
+                "(plain and shared)}: the definition "
                 "reached through the virtual_ptr (by value, by const&, and in a binary method mixed "
                 "with virtual_<T&>) equals the one reached with a plain reference; get / * / -> give "
                 "the original object; definitions see the pointee; use_count consistent. Histories: "
@@ -559,9 +562,9 @@ def c09(res, tier, deadline):
                 "policies: a pointer created before later updates (indirect) or since the last "
                 "update (direct) dispatches like a plain reference does now.")
     res.assumptions = ["class registrations are not withdrawn while pointers to them are alive",
-                       "four lattices of four real classes; registries beyond that are covered through virtual_ptr shapes of engine E1"]
+                       "five lattices of four real classes; registries beyond that are covered through virtual_ptr shapes of engine E1"]
     depth = "4" if tier == "quick" else "5"
-    variants = [("vptr_lat%d" % l, ["LATTICE=%d" % l], "lattice %d" % l) for l in range(4)]
+    variants = [("vptr_lat%d" % l, ["LATTICE=%d" % l], "lattice %d" % l) for l in range(5)]
     cands, samples, sums = _run_family(res, "vptr.cpp", variants, run_args=[depth], run_timeout=3000,
                                        compile_failure_is_violation=True)
     for s in sums:
@@ -569,8 +572,8 @@ def c09(res, tier, deadline):
         res.traces += s["cases"] + s["histories"]
         res.nontrivial += s["cases"]
         res.transitions += s["facts"]
-    res.bounds.append({"run": "vptr family " + tier, "complete": len(sums) == 4,
-                       "counters": {"programs": 4, "history_depth": int(depth)}})
+    res.bounds.append({"run": "vptr family " + tier, "complete": len(sums) == 5,
+                       "counters": {"programs": 5, "history_depth": int(depth)}})
     res.samples = samples[:8]
     _triage_family(res, "vptr.cpp", cands, run_args=[depth])
     # virtual_ptr / virtual_shared_ptr parameter kinds over all registries of a
